@@ -271,7 +271,8 @@ def cardinality_roundtrip(prog, rep, which=("xml", "dict")):
         rep.saw_function(f)
         # writer side: the generic element branch renders with str(val)
         se = prog.func("tools.xmlparser.XMLWriter.save_element")
-        generic = [c for c in calls_in(se.node) if call_name(c) == "E" and len(c.args) == 2
+        from ..dataflow import private_closure
+        generic = [c for h in private_closure(se) for c in calls_in(h.node) if call_name(c) == "E" and len(c.args) == 2
                    and isinstance(c.args[1], ast.Call) and call_name(c.args[1]) == "str"]
         rep.check(bool(generic), "ORD-3", "XML writer renders plain attributes with str(val)", "E(k, str(val))",
                   "the XML writer no longer renders attribute values with str(); the parser is checked against "
